@@ -10,6 +10,10 @@ def items():
 
 def run(tier='quick', seed=0, only=None):
     its = [i for i in items() if not only or only in i.cid]
-    return runner.run_property(PID, its, tier=tier, seed=seed, level='proof',
+    bounded = []
+    if not only:
+        from bounded import sig_soundness as _b
+        bounded = [_b.component]
+    return runner.run_property(PID, its, bounded=bounded, tier=tier, seed=seed, level='proof',
                                trusted_base=['pyvc symbolic executor', 'z3 5.1 / cvc5 1.0.3', 'RFC 4880 5.2.4 layout encoded in contracts/hashdata.py'],
                                assumptions=['cryptographic hypothesis (named, not proved): signatures are unforgeable and the hash is collision resistant'])
